@@ -73,6 +73,8 @@ pub struct SnapshotPoint {
 #[derive(Clone, Debug)]
 pub struct TargetFrame {
     pub ticket: u64,
+    /// Debug form of the `CommanderKey` the channel was opened for.
+    pub key: String,
     pub target: usize,
     pub node: String,
     pub lane: String,
@@ -95,6 +97,7 @@ pub struct Obs {
     pub identity: Uuid,
     pub target_frames: Vec<TargetFrame>,
     pub jitter_deferred: u64,
+    pub crashed: bool,
 }
 
 #[derive(Clone, Debug)]
@@ -116,11 +119,13 @@ pub struct Options {
     pub targets: usize,
     pub target_caps: Vec<usize>,
     pub target_pace: Vec<Pace>,
+    /// Crash: drop the whole agent + runtime future after this many script steps (no epilogue).
+    pub crash_after: Option<usize>,
 }
 
 impl Default for Options {
     fn default() -> Self {
-        Options { reporting: false, stop_at_end: true, probe: true, targets: 0, target_caps: vec![], target_pace: vec![] }
+        Options { reporting: false, stop_at_end: true, probe: true, targets: 0, target_caps: vec![], target_pace: vec![], crash_after: None }
     }
 }
 
@@ -159,6 +164,8 @@ pub struct Runner {
     reporters: Arc<Mutex<Vec<(String, UplinkReportReader)>>>,
     aggregate: Option<UplinkReportReader>,
     snapshots: Vec<SnapshotPoint>,
+    target_ctls: Arc<Mutex<Vec<SharedCtl>>>,
+    targets_stalled: Arc<Mutex<bool>>,
 }
 
 impl Runner {
@@ -327,6 +334,12 @@ impl Runner {
                 let after = self.rec.lock().map_hist[*lane as usize].len();
                 self.take_drops.push(TakeDropObs { lane: *lane, take: *take, n: *n, hist_before: before, hist_after: after, sent });
             }
+            Step::StallTargets(stalled) => {
+                *self.targets_stalled.lock() = *stalled;
+                for c in self.target_ctls.lock().iter() {
+                    set_stalled(c, *stalled);
+                }
+            }
             Step::StopAgent => {}
         }
     }
@@ -341,6 +354,7 @@ async fn link_server(
     frames: Arc<Mutex<Vec<TargetFrame>>>,
     mut rng: Rng,
     ctls: Arc<Mutex<Vec<SharedCtl>>>,
+    stalled: Arc<Mutex<bool>>,
 ) {
     let mut n = 0usize;
     while let Some(req) = link_rx.recv().await {
@@ -351,9 +365,10 @@ async fn link_server(
                 let cap = caps.get(idx % caps.len().max(1)).copied().unwrap_or(4096);
                 let pace = paces.get(idx % paces.len().max(1)).copied().unwrap_or(Pace { chunk: 4096, yields: 0 });
                 let (tx, rx) = byte_channel(nz(cap));
-                let ctl = new_ctl(pace, false);
+                let ctl = new_ctl(pace, *stalled.lock());
                 ctls.lock().push(ctl.clone());
                 let frames = frames.clone();
+                let key = format!("{:?}", c.key);
                 let reader = PacedReader::new(rx, ctl, rng.fork());
                 tokio::spawn(async move {
                     let mut framed = FramedRead::new(reader, RawRequestMessageDecoder);
@@ -364,6 +379,7 @@ async fn link_server(
                         };
                         frames.lock().push(TargetFrame {
                             ticket: ticket(),
+                            key: key.clone(),
                             target: idx,
                             node: msg.path.node.as_str().to_string(),
                             lane: msg.path.lane.as_str().to_string(),
@@ -382,7 +398,7 @@ async fn link_server(
 }
 
 /// Run one case. `store`: when given, the agent runs with persistence against it.
-pub fn run_case<S>(cfg: &Config, script: &[Step], opts: &Options, rng: &mut Rng, store: Option<S>, targets: Vec<(String, String)>) -> Obs
+pub fn run_case<S>(cfg: &Config, script: &[Step], opts: &Options, rng: &mut Rng, store: Option<S>, targets: Vec<(Option<String>, String, String)>) -> Obs
 where
     S: NodePersistence + Send + Sync + 'static,
 {
@@ -393,7 +409,7 @@ where
     let mut rng2 = rng.fork();
     let rec2 = rec.clone();
     rt.block_on(async move {
-        let lifecycle = TestLifecycle { rec: rec2.clone(), targets: Arc::new(targets) };
+        let lifecycle = TestLifecycle { rec: rec2.clone(), targets: Arc::new(targets), commanders: Default::default() };
         let agent = AgentModel::new(TestAgent::default, lifecycle.into_lifecycle());
         let (att_tx, att_rx) = mpsc::channel(8);
         let (_http_tx, http_rx) = mpsc::channel(1);
@@ -429,6 +445,7 @@ where
         };
         let target_frames = Arc::new(Mutex::new(vec![]));
         let target_ctls = Arc::new(Mutex::new(vec![]));
+        let targets_stalled = Arc::new(Mutex::new(false));
         let link_handle = tokio::spawn(link_server(
             link_rx,
             opts.target_caps.clone(),
@@ -436,6 +453,7 @@ where
             target_frames.clone(),
             rng2.fork(),
             target_ctls.clone(),
+            targets_stalled.clone(),
         ));
 
         let n = cfg2.remotes;
@@ -452,13 +470,26 @@ where
             reporters,
             aggregate,
             snapshots: vec![],
+            target_ctls: target_ctls.clone(),
+            targets_stalled: targets_stalled.clone(),
         };
 
         let mut agent_handle = Some(agent_handle);
         let mut agent_result = None;
         let mut stop_requested = None;
         let mut agent_finished = None;
-        for step in script {
+        let mut crashed = false;
+        for (i, step) in script.iter().enumerate() {
+            if opts.crash_after == Some(i) {
+                // Crash: every task of the agent and its runtime is dropped at whatever await point
+                // it has reached.
+                if let Some(h) = agent_handle.take() {
+                    h.abort();
+                    let _ = h.await;
+                }
+                crashed = true;
+                break;
+            }
             if matches!(step, Step::StopAgent) {
                 break;
             }
@@ -474,6 +505,7 @@ where
                 live.ctl.lock().pace = Pace { chunk: 4096, yields: 0 };
             }
         }
+        *targets_stalled.lock() = false;
         for c in target_ctls.lock().iter() {
             set_stalled(c, false);
             c.lock().pace = Pace { chunk: 4096, yields: 0 };
@@ -485,7 +517,7 @@ where
         // Epilogue 2: a fresh probe remote syncs every lane (large buffers, fast reader).
         let mut probe_session = None;
         let agent_alive = agent_handle.as_ref().map_or(false, |h| !h.is_finished());
-        if opts.probe && agent_alive {
+        if opts.probe && agent_alive && !crashed {
             runner.attach(n, 4096, 1 << 16, Pace { chunk: 4096, yields: 0 }).await;
             probe_session = Some(runner.sessions.len() - 1);
             for lane in ALL_LANES {
@@ -495,7 +527,7 @@ where
             settle().await;
         }
         // Epilogue 3: stop the agent (clean shutdown) and collect how every remote ended.
-        if opts.stop_at_end || !agent_alive {
+        if !crashed && (opts.stop_at_end || !agent_alive) {
             stop_requested = Some(ticket());
             stop_tx.trigger();
             if let Some(h) = agent_handle.take() {
@@ -549,6 +581,7 @@ where
             identity,
             target_frames: tf,
             jitter_deferred: 0,
+            crashed,
         }
     })
 }
